@@ -17,6 +17,8 @@ A third rewrite removes a layout difference of newer Python:
 Assignment expressions elsewhere (right operand of and/or, comprehensions) are left alone.
   * if A and (x := e) ...: body  (no else branch)          -> if A: x = e; if x ...: body
   * a, b = os.path.split(p) / os.path.splitext(p)  (p built from names and os.path calls)   -> a = <call>[0]; b = <call>[1]
+  * match <name or attribute>: case <literal> | <literal>: ... case Cls(): ... case _: ...   -> the if / elif / else chain with == tests,
+    `is` for None/True/False, isinstance for class patterns without sub-patterns (other patterns: the statement is left alone)
   * a, b = x, y  (names on the left, no left name read by a later right side)   -> a = x; b = y
   * a = b = v    (names only)                                                    -> a = v; b = a   (b = v for a plain name/constant v)
 """
@@ -200,6 +202,52 @@ class Normaliser(ast.NodeTransformer):
         if not pre:
             return st
         return [self.visit(a) for a in pre] + [st]
+
+    def visit_Match(self, st):
+        subj = st.subject
+        if not _simple(subj):
+            return self.generic_visit(st)
+
+        def test_of(pat):
+            if isinstance(pat, ast.MatchValue):
+                return ast.Compare(left=copy.deepcopy(subj), ops=[ast.Eq()], comparators=[pat.value])
+            if isinstance(pat, ast.MatchSingleton):
+                return ast.Compare(left=copy.deepcopy(subj), ops=[ast.Is()], comparators=[ast.Constant(value=pat.value)])
+            if isinstance(pat, ast.MatchOr):
+                parts = [test_of(p0) for p0 in pat.patterns]
+                return None if any(p0 is None for p0 in parts) else ast.BoolOp(op=ast.Or(), values=parts)
+            if isinstance(pat, ast.MatchClass) and not pat.patterns and not pat.kwd_patterns:
+                return ast.Call(func=ast.Name(id="isinstance", ctx=ast.Load()), args=[copy.deepcopy(subj), pat.cls], keywords=[])
+            if isinstance(pat, ast.MatchAs) and pat.pattern is None and pat.name is None:
+                return True
+            return None
+        chain = []
+        for case in st.cases:
+            t = test_of(case.pattern)
+            if t is None:
+                return self.generic_visit(st)
+            if case.guard is not None:
+                t = case.guard if t is True else ast.BoolOp(op=ast.And(), values=[t, case.guard])
+            chain.append((t, case.body))
+        top = None
+        cur = None
+        for t, body in chain:
+            if t is True:
+                if cur is None:
+                    return self._block(body)
+                cur.orelse = body
+                cur = None
+                break
+            node = ast.copy_location(ast.If(test=t, body=body, orelse=[]), st)
+            if top is None:
+                top = node
+            else:
+                cur.orelse = [node]
+            cur = node
+        if top is None:
+            return self.generic_visit(st)
+        ast.fix_missing_locations(top)
+        return self.visit(top)
 
     def visit_While(self, st):
         new, named = _hoist_leading_walrus(st.test)
